@@ -49,7 +49,7 @@ theorem tie_level {P idOf t r m R pre o x} (hI : Inv P idOf t) (hm : t.memos r =
       · exact h.2
       · rcases hc with hc | hc
         · exact absurd (Nat.lt_of_lt_of_le h.lt hc) (Nat.lt_irrefl _)
-        · exact Nat.le_trans (smemo_dur3 hI hA) hc
+        · exact Nat.le_trans (dv_smemo_dur3 hI hA) hc
     | none =>
       rw [hsp] at h5
       obtain ⟨_, hpre⟩ := h5
@@ -83,7 +83,7 @@ theorem structAt_green {P idOf t} (hP : Wf2 P idOf) (hI : Inv P idOf t) {l1 l2 :
     have hh : m2.value.h = some c := by
       have : m2.value = o'.val := by rw [← hval, ← hx]
       rw [this]; exact hv
-    obtain ⟨mc', hmc', hsc, hdur, hhc⟩ := handle_chain hI q' m2 hm2 hs2 c hh
+    obtain ⟨mc', hmc', hsc, hdur, hhc⟩ := dv_handle_chain hI q' m2 hm2 hs2 c hh
     rw [hmc] at hmc'; cases hmc'
     obtain ⟨_, _, hslot⟩ := handle_ok hP hI hm2 hs2 hh
     refine ⟨⟨mc, hmc, hsc⟩, hslot, ?_, hhc⟩
@@ -166,7 +166,7 @@ theorem Walk.nested {t' : State} (w : Walk P idOf r s m R done t) (hI' : Inv P i
     fun o ho hout => (w.green o ho hout).ext he, ?_, fun o ho hp => (w.pgreen o ho hp).ext he, ?_, ?_⟩
   · intro o ho hout
     obtain ⟨x, hx, hc⟩ := w.stamp o ho hout
-    exact ⟨x, (sokDep_info_ext he (w.green o ho hout).sok hx).2, hc⟩
+    exact ⟨x, (dv_sokDep_info_ext he (w.green o ho hout).sok hx).2, hc⟩
   · intro hb
     rw [esm, he.cur]
     exact w.busy ((busy_ext_above he (Nat.le_refl r)).mp hb)
